@@ -209,7 +209,10 @@ class process(ContractBase):
                    Implies(And(is_('p5'), Not(echo_ok)), And(closed, Not(unwr))),
                    Implies(is_('p6'), closed),
                    # the echo was verified: the wrapper steps aside and hands over exactly what followed the packet, in order
-                   Implies(And(is_('p5'), echo_ok), And(unwr, deliv == z3.SubSeq(T, n0, z3.Length(T) - n0))))
+                   Implies(And(is_('p5'), echo_ok), And(unwr, deliv == z3.SubSeq(T, n0, z3.Length(T) - n0))),
+                   # ... and leaves the connection open with nothing kept back: the bytes handed over are not judged again
+                   # as a further handshake packet (a verified echo packet is never empty; stated as the guard n0 > 0)
+                   Implies(And(is_('p5'), echo_ok, n0 > 0), And(Not(closed), c.cur.f(BUF, s) == z3.Empty(BYTES.sort()), c.cur.f(LEN, s) == n0)))
 
     def ensures(c):
         out = dict(process._gate(c, c.old))
